@@ -29,6 +29,9 @@ var (
 	)
 
 	errRFC3550HeaderIDRange = errors.New("header extension id must be 0 for non-RFC 5285 extensions")
+	errRFC3550HeaderSize    = errors.New(
+		"header extension payload must be 65535 32-bit words or less for non-RFC 5285 extensions",
+	)
 
 	errInvalidRTPPadding = errors.New("invalid RTP padding")
 )
